@@ -53,6 +53,8 @@ fixed("F20", "C19", "running-job-removed", {"markers": ["failed", "pid"]}, "38a0
 fixed("F21", "C19", "indexed-job-removed", {"experiment_running": True}, "936768f",
       "orphans counted an index link only if the job folder existed: a job starting while the command ran was removed by orphans --clean")
 
+fixed("F22", "C10", "pid-file-left", {}, "cce67c8",
+      "remove_signal_handlers() ignored remove_cleanup and always unregistered the exit-time cleanup: a job that ended successfully kept its pid file")
 open_("K01", "C20", "repaired-job-relaunched", {"kind": "dep-root"},
       "after `deprecated list --fix [--cleanup]`, resubmitting a task whose own class was deprecated under another class name launches it again: the linked/moved folder keeps the marker, script and pid files named after the former class (olddleaf.done), the new job looks for <new name>.done",
       "repair is not small: fix_deprecated would have to rename or alias every per-job file (script, markers, pid, lock, logs) of the former task name, in link mode without touching the old folder; recorded instead")
